@@ -304,6 +304,24 @@ def r3_degenerate_guards(ctx):
                      if any(dn in a.text for dn in derived))
             if not ok and unguarded is None:
                 unguarded = c
+        # np.gradient needs two samples of exactly the array it is given
+        for c in calls_in(f):
+            if (call_name(c) or "").split(".")[-1] != "gradient" or \
+                    not c.args:
+                continue
+            a0 = c.args[0]
+            n_red += 1
+            if isinstance(a0, ast.Name) and a0.id in derived:
+                conds = conditions_at(c)
+                ok = any((f"{a0.id}.size" in a.text or f"len({a0.id})" in
+                          a.text) for a in conds)
+            elif isinstance(a0, ast.Subscript) and isinstance(
+                    a0.slice, ast.Slice):
+                ok = False     # a fresh, shorter array nobody tested
+            else:
+                continue
+            if not ok and unguarded is None:
+                unguarded = c
         if unguarded is not None:
             ctx.fail(unguarded, f"{ident}: {norm(unguarded)[:50]} without a "
                      "size guard",
